@@ -9,7 +9,7 @@ mkdir -p /tmp/runall; rm -f /tmp/runall/*
 for p in $PROPS; do
   ( ./run.sh $p $TIER > /tmp/runall/$p.out 2> /tmp/runall/$p.err; echo $? > /tmp/runall/$p.rc ) &
   # at most 6 at once
-  while [ $(jobs -r | wc -l) -ge 6 ]; do sleep 0.3; done
+  :
 done
 wait
 for p in $PROPS; do
